@@ -489,6 +489,92 @@ example : ∃ p, (evalInstr samplerCfg ballFilter ballFallback
         (.ball 0 none 1)).sampler = some p ∧ mass p 7 = 0 ∧ mass p 8 = 1 :=
   ⟨_, rfl, by decide +kernel⟩
 
+
+/-! ## nested compositions: what a composed region answers when it is itself an operand -/
+
+theorem getD_map_contains (envO : List (Operand α)) (i : Nat) :
+    (envO.map (·.contains)).getD i (fun _ => false) = (envO.getD i undefinedOperand).contains := by
+  induction envO generalizing i with
+  | nil => rfl
+  | cons o l ih =>
+    cases i with
+    | zero => rfl
+    | succ k => simpa using ih k
+
+/-- one instruction: with the regenerated `_trueContainsPoint` of the composed classes, the `_trueContainsPoint` of the
+    constructed region is the set operation applied to the operands' `_trueContainsPoint` -/
+theorem evalInstr_contains (bf : BallFilter) (fb : BallFallback) (envO : List (Operand α)) (i : Instr α) :
+    (evalInstr samplerCfg bf fb envO i).contains = denoteInstr (envO.map (·.contains)) i := by
+  rw [gen_sampler_cfg]
+  cases i with
+  | points a m => rfl
+  | «opaque» d s m mp mf => rfl
+  | inter args =>
+    funext x
+    simp only [evalInstr, composed, SamplerCfg.reference, denoteInstr, getD_map_contains, List.all_map]
+    rfl
+  | union args =>
+    funext x
+    simp only [evalInstr, composed, SamplerCfg.reference, denoteInstr, getD_map_contains, List.any_map]
+    rfl
+  | diff a b =>
+    funext x
+    simp only [evalInstr, composed, SamplerCfg.reference, denoteInstr, getD_map_contains]
+  | ball p ib o =>
+    funext x
+    simp only [evalInstr, composed, SamplerCfg.reference, denoteInstr, getD_map_contains]
+
+/-- **Composed regions as operands (full statement).**  For every region program (any nesting of intersections, unions,
+    differences and point-set intersections over point sets, grids and opaque leaves), the `_trueContainsPoint` of every
+    constructed region — the test the generic samplers of an enclosing composition apply to it — is exactly
+    set-theoretic membership computed from the leaves' `_trueContainsPoint`.  Hence the compositional theorems
+    (`intersection_uniform`, `difference_uniform`, `union_support_general`, …), which speak about the operands'
+    `contains`, speak about the composed *set* at every level of nesting. -/
+theorem composed_true_membership (bf : BallFilter) (fb : BallFallback) (prog : List (Instr α)) :
+    (evalProgram samplerCfg bf fb prog).map (·.contains) = denoteProgram prog := by
+  unfold evalProgram denoteProgram
+  suffices h : ∀ (envO : List (Operand α)),
+      (prog.foldl (fun env i => env ++ [evalInstr samplerCfg bf fb env i]) envO).map (·.contains)
+        = prog.foldl (fun envD i => envD ++ [denoteInstr envD i]) (envO.map (·.contains)) from h []
+  induction prog with
+  | nil => intro envO; rfl
+  | cons i rest ih =>
+    intro envO
+    simp only [List.foldl_cons]
+    rw [ih, List.map_append, List.map_cons, List.map_nil, evalInstr_contains]
+
+/-- consequence for the sampler of a nested difference `A \\ B` whose operands are themselves composed: a point outside
+    the *set* `A \\ B` (as denoted from the leaves) is never returned, provided `A`'s own sampler stays inside `A` -/
+theorem nested_difference_membership (bf : BallFilter) (fb : BallFallback) (env : List (Operand α)) (a b : Nat) (x : α)
+    (hx : denoteInstr (env.map (·.contains)) (.diff a b) x = false)
+    (q : SubPMF α) (hq : (env.getD a undefinedOperand).sampler = some q)
+    (hA : (env.getD a undefinedOperand).contains x = false → mass q x = 0) :
+    ∃ p, (evalInstr samplerCfg bf fb env (.diff a b)).sampler = some p ∧ mass p x = 0 := by
+  simp only [denoteInstr, getD_map_contains] at hx
+  obtain ⟨q', hq', hm⟩ := difference_uniform (env.getD a undefinedOperand) (env.getD b undefinedOperand) q hq x
+  refine ⟨q', hq', ?_⟩
+  rw [hm]
+  cases hb : (env.getD b undefinedOperand).contains x
+  · simp only [hb, Bool.not_false, Bool.and_true] at hx
+    simpa using hA hx
+  · simp
+
+/-- the program of the recorded defect, atoms: 0 = (3,2,0), 1 = (3,3,1): `I(ps ∩ sector at z=1, {0,1})` where atom 0 lies in
+    the sector's footprint but not in the sector.  With the regenerated structural test atom 0 is never returned … -/
+example : ∃ p, ((evalProgram samplerCfg ballFilter ballFallback
+      [.points [0, 2] [0, 2], .opaque (some 2) (some 4) [1, 2] [0, 1, 2] [0, 1, 2], .ball 0 none 1, .points [0, 1] [0, 1],
+       .inter [2, 3]]).getLast?.bind (·.sampler)) = some p ∧ mass p 0 = 0 := ⟨_, rfl, by decide +kernel⟩
+
+/-- … whereas the inherited footprint test (before 9c3fab32) let the outer intersection return it -/
+theorem composed_footprint_membership_leaks :
+    ∃ p, ((evalProgram { SamplerCfg.reference with interTrue := .inherited } .trueContainsPoint .allPoints
+      [.points [0, 2] [0, 2], .opaque (some 2) (some 4) [1, 2] [0, 1, 2] [0, 1, 2], .ball 0 none 1, .points [0, 1] [0, 1],
+       .inter [2, 3]]).getLast?.bind (·.sampler)) = some p ∧ mass p 0 = 1 / 2 := ⟨_, rfl, by decide +kernel⟩
+
+example : (denoteProgram [Instr.points [0, 2] [0, 2], .opaque (some 2) (some 4) [1, 2] [0, 1, 2] [0, 1, 2], .ball 0 none 1,
+    .points [0, 1] [0, 1], .inter [2, 3]]).map (fun f => [0, 1, 2].filter f) = [[0, 2], [1, 2], [2], [0, 1], []] := by
+  decide +kernel
+
 /-! ## polylines / paths: segment chosen in proportion to its length -/
 
 /-- `PolylineRegion`/`PathRegion`: segment `i` consists of `|segs i|` atoms of length `μ`; it is chosen with
